@@ -179,7 +179,7 @@ def run(tier):
     checked, discarded = check_with_intern(ck, plist, seen)
     ck.coverage["route_programs_checked"] = checked
     return ck.finish("(a) isolated intern-table histories under %d hash modes against a dictionary, audited after every "
-                     "operation; (b) programs building one byte string by up to 18 routes among up to 20000 unrelated "
+                     "operation; (b) programs building one byte string (0-260 bytes, every length class) by up to 22 routes incl. cuts at random byte offsets among up to 20000 unrelated "
                      "strings, compared by ==, map lookup, host pointer identity and live-table audit; non-trivial = "
                      "distinct history / program" % len(modes))
 
